@@ -17,6 +17,8 @@ The probe extensions are defined HERE (nothing in /repo is touched).  Two famili
        attribute escaping (& < > ") for attribute values, identity for stashed raw text.
     I.e. the payload is where the token is, changed by nothing but the serializer's escaping, and nothing else moved;
     `<p>placeholder</p>` unwrapping for block-level raw HTML is on both sides.  Escaping is re-implemented here.
+    In 35 % of the cases ONE instance converts the twin, is reset(), and then converts the real document (what a probe
+    stored for an earlier document must not come back).
     Payloads: markup-dense, entity-like (incl. `&#12`, `&ſ;`), non-ASCII, attr-list / toc-marker / abbreviation / smarty
     look-alikes; never STX/ETX or a placeholder stem; first and last character are not white space.
     With and without a random subset of the bundled extensions.  Bundled tree processors that re-read such text on the
@@ -32,6 +34,10 @@ The probe extensions are defined HERE (nothing in /repo is touched).  Two famili
         continues with the NEXT processor on the same block (nested parseBlocks calls are followed recursively);
         probe block processors answer test() = True on some blocks and return False from run() without touching
         anything;
+      * in 45 % of these cases probes CHANGE the block registry while the document is parsed: one-shot processors that
+        deregister themselves in run() (then return False, or consume the block and return True/None) and a directive
+        processor (`%%ON<j>%%` / `%%OFF<j>%%` blocks, also inside a quote) that registers / deregisters further probes;
+        required: each block is offered to the processors of the registry in force when its dispatch starts;
       * inline patterns are tried in that order without skipping;
       * the output equals the output without any probe.
     The expected order is computed here (own stable sort on the registered priorities), not read from the registry.
@@ -353,8 +359,26 @@ def run_payload_case(case):
         lst = ([probe] + list(exts)) if case.get('probe_first', True) else (list(exts) + [probe])
         md = markdown.Markdown(extensions=lst, extension_configs={k: dict(v) for k, v in case.get('configs', {}).items()}, output_format=case.get('fmt', 'xhtml'))
         return md.convert(case['doc'])
-    real = convert(False)
-    twin = convert(True)
+    if case.get('reuse'):
+        # ONE instance: it converts the twin first, is reset(), then converts the real thing (same number of stashed strings,
+        # same placeholders): what the probe stored for the earlier document must not come back
+        mode = {'twin': True}
+
+        def fill2(md, slot):
+            if not mode['twin']: return slot['payload']
+            tok = 'Qz%dtokenX' % slot['i']
+            if slot['mode'] == 'stash' and raw_is_block(md, slot['payload']): tok = '<div %s>' % tok
+            tokens[slot['i']] = tok
+            return tok
+        probe = _make_probe_ext(slots, fill2)
+        lst = ([probe] + list(exts)) if case.get('probe_first', True) else (list(exts) + [probe])
+        md = markdown.Markdown(extensions=lst, extension_configs={k: dict(v) for k, v in case.get('configs', {}).items()}, output_format=case.get('fmt', 'xhtml'))
+        twin = md.convert(case['doc'])
+        md.reset(); mode['twin'] = False
+        real = md.convert(case['doc'])
+    else:
+        real = convert(False)
+        twin = convert(True)
     expected = twin
     for s in slots:
         tok = tokens.get(s['i'])
@@ -443,6 +467,59 @@ def run_order_case(case):
         def run(self, parent, blocks):
             return False
 
+    dyn = case.get('dyn')
+
+    def reg_event(kind, name, prio=None):
+        ev['block'].append((kind, name, prio))
+
+    class OneShot(BlockProcessor):
+        """deregisters ITSELF the first time it runs; then leaves the block to the others (False) or consumes it"""
+        def __init__(self, parser, name, k, mod, consume):
+            super().__init__(parser); self.name = name; self.k = k; self.mod = mod; self.consume = consume
+
+        def test(self, parent, block):
+            return len(block) % self.mod == self.k % self.mod
+
+        def run(self, parent, blocks):
+            reg_event('DEREG', self.name); self.parser.blockprocessors.deregister(self.name)
+            if not self.consume: return False
+            blocks.pop(0); etree.SubElement(parent, 'p').text = 'ONESHOT ' + self.name
+            return rng_free_choice(self.k)
+
+    def rng_free_choice(k):
+        return True if k % 2 else None
+
+    class Toggled(BlockProcessor):
+        def __init__(self, parser, name, k, mod, consume):
+            super().__init__(parser); self.name = name; self.k = k; self.mod = mod; self.consume = consume
+
+        def test(self, parent, block):
+            return len(block) % self.mod == self.k % self.mod
+
+        def run(self, parent, blocks):
+            if not self.consume: return False
+            blocks.pop(0); etree.SubElement(parent, 'p').text = 'TOGGLED ' + self.name
+
+    class Switch(BlockProcessor):
+        """directive blocks %%ON<j>%% / %%OFF<j>%% register / deregister the probe zt<j> while the document is being parsed"""
+        RE = re.compile(r'^%%(ON|OFF)(\d)%%[ ]*(\n|$)')
+
+        def test(self, parent, block):
+            return bool(self.RE.match(block))
+
+        def run(self, parent, blocks):
+            block = blocks.pop(0); m = self.RE.match(block)
+            rest = block[m.end():]
+            if rest.strip(): blocks.insert(0, rest)
+            j = int(m.group(2)) % len(dyn['toggles'])
+            pr, k, mod, consume, _ = dyn['toggles'][j]; name = 'zt%d' % j
+            reg = self.parser.blockprocessors
+            if m.group(1) == 'ON':
+                obj = Toggled(self.parser, name, k, mod, consume); wrap_block(name, obj)
+                reg_event('REG', name, pr); reg.register(obj, name, pr)
+            elif name in reg:
+                reg_event('DEREG', name); reg.deregister(name)
+
     class IP(InlineProcessor):
         def handleMatch(self, m, data):  # never reached: the pattern cannot match
             return None, None, None
@@ -460,6 +537,11 @@ def run_order_case(case):
         def extendMarkdown(self, md):
             for j, p in enumerate(probes['pre']): md.preprocessors.register(PreP(md), 'zp%d' % j, p)
             for j, (p, k, mod) in enumerate(probes['block']): md.parser.blockprocessors.register(BP(md.parser, k, mod), 'zp%d' % j, p)
+            if dyn:
+                for j, (p, k, mod, consume) in enumerate(dyn['oneshots']): md.parser.blockprocessors.register(OneShot(md.parser, 'zo%d' % j, k, mod, consume), 'zo%d' % j, p)
+                for j, (p, k, mod, consume, initially) in enumerate(dyn['toggles']):
+                    if initially: md.parser.blockprocessors.register(Toggled(md.parser, 'zt%d' % j, k, mod, consume), 'zt%d' % j, p)
+                md.parser.blockprocessors.register(Switch(md.parser), 'zswitch', dyn['switch_prio'])
             for j, p in enumerate(probes['inline']): md.inlinePatterns.register(IP(r'(?!)', md), 'zp%d' % j, p)
             for j, p in enumerate(probes['tree']): md.treeprocessors.register(TP(md), 'zp%d' % j, p)
             for j, p in enumerate(probes['post']): md.postprocessors.register(PostP(md), 'zp%d' % j, p)
@@ -469,10 +551,11 @@ def run_order_case(case):
         if with_probes: lst.insert(case['probe_pos'] % (len(lst) + 1), Probes())
         return markdown.Markdown(extensions=lst, extension_configs={k: dict(v) for k, v in case.get('configs', {}).items()}, output_format=case.get('fmt', 'xhtml'))
 
-    base = mk(False).convert(case['doc'])
+    base = None if dyn else mk(False).convert(case['doc'])   # dynamic probes consume the directive blocks: no probe-free twin
     md = mk(True)
     regs = {'pre': md.preprocessors, 'block': md.parser.blockprocessors, 'inline': md.inlinePatterns, 'tree': md.treeprocessors, 'post': md.postprocessors}
     order = {k: stable_desc(_registered(r)) for k, r in regs.items()}
+    model = [list(x) for x in _registered(regs['block'])]    # the block registry as registered, kept up to date from the REG/DEREG events
     depth = {'tree': 0, 'pre': 0, 'post': 0}
 
     def wrap_run(kind, name, obj):
@@ -517,7 +600,7 @@ def run_order_case(case):
     except Runaway:
         return ['block dispatch does not progress: more than %d test() calls (a block whose processor returned False from run() is offered again from the top?); last events %r' % (EVENT_CAP, ev['block'][-6:])]
     problems = []
-    if out != base:
+    if base is not None and out != base:
         problems.append('output with inert probes differs from the output without: %r vs %r' % (out[:300], base[:300]))
     if not case['doc'].strip():
         return problems
@@ -527,22 +610,33 @@ def run_order_case(case):
     F = order['post']
     if len(ev['post']) % max(1, len(F)) or any(ev['post'][i] != F[i % len(F)] for i in range(len(ev['post']))) or not ev['post']:
         problems.append('postprocessors ran as %r, registered order is %r' % (ev['post'], F))
-    # block dispatch
-    F = order['block']; E = ev['block']
+    # block dispatch: every dispatch (one pass of `while blocks`) offers the block to the processors of the registry AS IT IS WHEN THE
+    # DISPATCH STARTS, in stable descending priority order; REG/DEREG events (probes changing the registry while parsing) update the model
+    E = ev['block']
+
+    def apply(e):
+        if e[0] == 'REG':
+            model[:] = [x for x in model if x[0] != e[1]] + [[e[1], e[2]]]
+        else:
+            model[:] = [x for x in model if x[0] != e[1]]
 
     def level(i):
-        pos = 0
+        F = None; pos = 0
         while i < len(E):
             e = E[i]
             if e[0] == 'R-': return i
-            if pos >= len(F): raise AssertionError('event %d: no processor left but %r follows' % (i, e))
+            if e[0] in ('REG', 'DEREG'):
+                apply(e); i += 1; continue
+            if F is None or pos >= len(F):
+                F = stable_desc([tuple(x) for x in model]); pos = 0
             if e[0] != 'T' or e[1] != F[pos]:
-                raise AssertionError('event %d: expected test of %r (position %d of %r), got %r; previous events %r' % (i, F[pos], pos, F, e, E[max(0, i - 4):i]))
+                raise AssertionError('event %d: expected test of %r (position %d of the registry in force %r), got %r; previous events %r' % (i, F[pos], pos, F, e, E[max(0, i - 5):i]))
             if e[2]:
                 if i + 1 >= len(E) or E[i + 1] != ('R+', F[pos]): raise AssertionError('event %d: test of %r was true but run did not follow: %r' % (i, F[pos], E[i + 1:i + 2]))
                 j = level(i + 2)
                 if j >= len(E) or E[j][0] != 'R-' or E[j][1] != F[pos]: raise AssertionError('event %d: unbalanced run of %r' % (i, F[pos]))
-                pos = 0 if E[j][2] else pos + 1
+                if E[j][2]: F = None; pos = 0       # accepted: the next block is a new dispatch
+                else: pos += 1                      # run() returned False: the NEXT processor of the same pass gets the block
                 i = j + 1
             else:
                 pos += 1; i += 1
@@ -557,7 +651,7 @@ def run_order_case(case):
     for a, b in zip(E, E[1:]):
         if a != F[-1] and idx[b] not in (idx[a], idx[a] + 1):
             problems.append('inline patterns: %r tried right after %r; registered order %r' % (b, a, F)); break
-    case['_stats'] = {'block_events': len(ev['block']), 'false_runs': sum(1 for e in ev['block'] if e[0] == 'R-' and not e[2]), 'inline_events': len(E), 'post_rounds': len(ev['post']) // max(1, len(order['post']))}
+    case['_stats'] = {'registry_changes': sum(1 for e in ev['block'] if e[0] in ('REG', 'DEREG')), 'block_events': len(ev['block']), 'false_runs': sum(1 for e in ev['block'] if e[0] == 'R-' and not e[2]), 'inline_events': len(E), 'post_rounds': len(ev['post']) // max(1, len(order['post']))}
     return problems
 
 
@@ -573,8 +667,22 @@ def gen_order_case(rng, counters):
               'inline': [pr(ip) for _ in range(rng.randint(2, 4))],
               'tree': [pr(tp) for _ in range(rng.randint(2, 4))],
               'post': [pr(pp) for _ in range(rng.randint(1, 3))]}
-    return {'kind': 'order', 'doc': D.document(rng, 1, 5, counters=counters), 'exts': exts, 'configs': _configs(rng, exts), 'probes': probes, 'probe_pos': rng.randrange(20),
+    case = {'kind': 'order', 'doc': D.document(rng, 1, 5, counters=counters), 'exts': exts, 'configs': _configs(rng, exts), 'probes': probes, 'probe_pos': rng.randrange(20),
             'fmt': rng.choice(['xhtml', 'html'])}
+    if rng.random() < 0.45:
+        # probes that change the block registry WHILE the document is parsed
+        mods = [1, 1, 2, 3]
+        case['dyn'] = {'oneshots': [[pr(bp + [105, 150]), rng.randrange(6), rng.choice(mods), rng.random() < 0.4] for _ in range(rng.randint(0, 2))],
+                       'toggles': [[pr(bp + [105, 12, 16]), rng.randrange(6), rng.choice(mods), rng.random() < 0.4, rng.random() < 0.3] for _ in range(rng.randint(1, 3))],
+                       'switch_prio': rng.choice([300, 150, 97, 96.5])}
+        parts = [f(rng) for f in (rng.choice(D._PIECE_POOL) for _ in range(rng.randint(2, 6)))]
+        for _ in range(rng.randint(1, 4)):
+            d = '%%%%%s%d%%%%' % (rng.choice(['ON', 'ON', 'OFF']), rng.randrange(len(case['dyn']['toggles'])))
+            if rng.random() < 0.15: d += '\n' + D.words(rng)            # directive with a remainder that is re-queued
+            if rng.random() < 0.1: d = '> ' + d                        # inside a quote: a nested parseBlocks call
+            parts.insert(rng.randint(0, len(parts)), d)
+        case['doc'] = '\n\n'.join(parts)
+    return case
 
 
 # ----------------------------------------------------------------------------------------------------------------------
@@ -602,7 +710,7 @@ def replay_violation(v):
 
 def search(driver, rng, n):
     dist = {'payload_cases': 0, 'order_cases': 0, 'skipped_exception': {}, 'kind': {}, 'mode': {}, 'where': {}, 'ctx': {}, 'pieces': {}, 'slot_unreached': 0,
-            'with_exts': 0, 'block_events': 0, 'run_false': 0, 'inline_events': 0, 'known': {}, 'slots_filled': 0}
+            'with_exts': 0, 'reused_instance': 0, 'block_events': 0, 'registry_changes': 0, 'dynamic_cases': 0, 'run_false': 0, 'inline_events': 0, 'known': {}, 'slots_filled': 0}
     viol = []; samples = []; seen = set(); cases = 0
     n_order = n * 3 // 10
     n_pay = n - n_order
@@ -613,10 +721,11 @@ def search(driver, rng, n):
             s = gen_slot(rng, i, exts)
             if payload_ok(s['payload'], padded=(s['mode'] == 'stash' and not s['alone'])): slots.append(s)
         if not slots: continue
-        case = {'kind': 'payload', 'slots': slots, 'exts': exts, 'configs': _configs(rng, exts), 'fmt': rng.choice(['xhtml', 'xhtml', 'html']), 'probe_first': rng.random() < 0.5}
+        case = {'kind': 'payload', 'slots': slots, 'exts': exts, 'configs': _configs(rng, exts), 'fmt': rng.choice(['xhtml', 'xhtml', 'html']), 'probe_first': rng.random() < 0.5, 'reuse': rng.random() < 0.35}
         case['doc'] = gen_doc(rng, slots, exts, dist['ctx'])
         cases += 1; dist['payload_cases'] += 1
         if exts: dist['with_exts'] += 1
+        if case['reuse']: dist['reused_instance'] += 1
         try:
             real, expected, tokens = run_payload_case(case)
         except RecursionError:
@@ -650,6 +759,7 @@ def search(driver, rng, n):
         except Exception as e:
             k = 'order:' + type(e).__name__; dist['skipped_exception'][k] = dist['skipped_exception'].get(k, 0) + 1; continue
         st = case.pop('_stats', None) or {}
+        dist['registry_changes'] += st.get('registry_changes', 0); dist['dynamic_cases'] += 1 if case.get('dyn') else 0
         dist['block_events'] += st.get('block_events', 0); dist['run_false'] += st.get('false_runs', 0); dist['inline_events'] += st.get('inline_events', 0)
         seen.add((case['doc'], tuple(case['exts']), repr(case['probes'])))
         if problems and len(viol) < 40:
